@@ -175,7 +175,36 @@ func (w *VWorld) sigString(kind string, t *chain.Acct) string {
 	return Hex0x(b)
 }
 
-// proofToken names the proof stored for address name: none | valid | valid2 | v27 | forged | corrupt.
+// longAccount builds an account address longer than 20 bytes out of the submitter's and the target's addresses and a
+// genuine signature over the fixed message by one of the two keys (forms L_<layout>_<signer>, see Vauth.tla).
+func (w *VWorld) longAccount(form string, sub, tgt *chain.Acct) (account, sig string) {
+	f := strings.Split(form, "_")
+	if len(f) != 3 {
+		infra("bad over-long account form %q", form)
+	}
+	var bz []byte
+	switch f[1] {
+	case "ts":
+		bz = append(append(bz, tgt.Addr.Bytes()...), sub.Addr.Bytes()...)
+	case "st":
+		bz = append(append(bz, sub.Addr.Bytes()...), tgt.Addr.Bytes()...)
+	case "32":
+		if f[2] == "s" {
+			bz = append(append(bz, tgt.Addr.Bytes()[:12]...), sub.Addr.Bytes()...)
+		} else {
+			bz = append(append(bz, sub.Addr.Bytes()[:12]...), tgt.Addr.Bytes()...)
+		}
+	default:
+		infra("bad over-long account form %q", form)
+	}
+	key := sub
+	if f[2] == "t" {
+		key = tgt
+	}
+	return sdk.AccAddress(bz).String(), Hex0x(SignProof(key, vauthtypes.MessageToSign))
+}
+
+// proofToken names the proof stored for address name: none | valid | valid2 | v27 | forged | misfiled | corrupt.
 func (w *VWorld) proofToken(ctx sdk.Context, name string) string {
 	a := w.Accts[name]
 	k := w.C.App.VAuthKeeper
@@ -188,7 +217,10 @@ func (w *VWorld) proofToken(ctx sdk.Context, name string) string {
 		return "corrupt"
 	}
 	wantHash := "0x" + hex.EncodeToString(ethcrypto.Keccak256([]byte(vauthtypes.MessageToSign)))
-	if p.Account != a.Acc().String() || p.Hash != wantHash || !strings.HasPrefix(p.Signature, "0x") {
+	if p.Account != a.Acc().String() {
+		return "misfiled" // the record found under this address was submitted for another account
+	}
+	if p.Hash != wantHash || !strings.HasPrefix(p.Signature, "0x") {
 		return "corrupt"
 	}
 	bz, err := hex.DecodeString(p.Signature[2:])
@@ -269,7 +301,13 @@ func (w *VWorld) Exec(o VOp) trace.M {
 	case "Submit":
 		signer = w.Accts[o.Sub]
 		t := w.Accts[o.Tgt]
-		msgs = []sdk.Msg{&vauthtypes.MsgSubmitProofExternalOwnedAccount{Submitter: signer.Acc().String(), Account: t.Acc().String(), Signature: w.sigString(o.Sig, t)}}
+		account, sig := t.Acc().String(), ""
+		if strings.HasPrefix(o.Sig, "L_") {
+			account, sig = w.longAccount(o.Sig, signer, t)
+		} else {
+			sig = w.sigString(o.Sig, t)
+		}
+		msgs = []sdk.Msg{&vauthtypes.MsgSubmitProofExternalOwnedAccount{Submitter: signer.Acc().String(), Account: account, Signature: sig}}
 	case "Create":
 		signer = w.Accts["s0"]
 		to := w.Accts[o.To]
